@@ -163,3 +163,10 @@ func init() {
 		Bounds: map[string]interface{}{"skeletons": "IFD0 scalars; IFD0 strings (1..5 chars); three timestamps + 3-digit sub-seconds + zone; ExifIFD numbers (10 fields + LensSpecification); ExifIFD strings (2,4,7 chars); GPS (8 tags); each under II and MM", "values": "every in-range value (full-width solver variables); text = printable non-blank ASCII", "outside": "Make/Model alias normalisation, ApertureValue (math.Pow), more than 11 entries per directory, padding/permuted value blocks"},
 	})
 }
+
+func init() {
+	register(&CheckDef{ID: "C10", Level: "model_checking", Timeout: [2]int{300, 1200},
+		Assumptions: []string{"input stream model zzMemReader; bufio.Reader and io.LimitedReader interpreted from their real SSA; the Exif callback consumes its declared length (premise of the property)"},
+		Bounds: map[string]interface{}{"sequences": "SOI, X, Exif-APP1 (16 payload bytes), Y, XMP-APP1 (12 packet bytes), DQT, 70 data bytes, and the order with XMP first; X = Y from {none, APP0, APP2, COM, DRI, foreign APP1, APPn holding SOI/EOI bytes}; payload bytes arbitrary incl. 0xFF; XMP callback consumption 0..15 bytes", "nonmeta": "one APPn/COM/SOF segment with 40 arbitrary payload bytes"},
+	})
+}
